@@ -70,12 +70,13 @@ type expected struct {
 type tcase struct {
 	C       input    `json:"c"`
 	Exp     expected `json:"exp"`
-	NTs     int      `json:"nts"`     // abstract time domain: arrays 0..NTs+1, files -1..NTs
-	Conc    []string `json:"conc"`    // concretisations of the abstract time domain to run
-	Types   []string `json:"types"`   // value types to run ("float","integer","unsigned","string","boolean")
-	Modes   []string `json:"modes"`   // compact: "fast","full"
-	Stretch int      `json:"stretch"` // compact: every abstract point becomes this many concrete points (file rolling scenario)
-	Salt    int64    `json:"salt"`    // per-case seed component
+	NTs     int      `json:"nts"`      // abstract time domain: arrays 0..NTs+1, files -1..NTs
+	Conc    []string `json:"conc"`     // concretisations of the abstract time domain to run
+	Types   []string `json:"types"`    // value types to run ("float","integer","unsigned","string","boolean")
+	Modes   []string `json:"modes"`    // compact: "fast","full"
+	Stretch int      `json:"stretch"`  // compact: every abstract point becomes this many concrete points (file rolling scenario)
+	OnlyPPB int      `json:"only_ppb"` // compact: run only this points-per-block setting (0 = all of exp.ppbs)
+	Salt    int64    `json:"salt"`     // per-case seed component
 }
 
 // ---------------------------------------------------------------------------------------------- concretisation
@@ -171,13 +172,13 @@ type pt struct {
 	ID int   // value id (or, for booleans, the bit of the id that the run carries)
 }
 
-func encFloat(id int) float64   { return float64(id) + 0.25 }
-func decFloat(f float64) int    { return int(math.Floor(f)) }
-func encInt(id int) int64       { return int64(id) - 5000 }
-func decInt(v int64) int        { return int(v + 5000) }
-func encUint(id int) uint64     { return uint64(id) + 1<<63 }
-func decUint(v uint64) int      { return int(v - 1<<63) }
-func encString(id int) string   { return "v" + strings.Repeat("x", id%3) + fmt.Sprint(id) }
+func encFloat(id int) float64 { return float64(id) + 0.25 }
+func decFloat(f float64) int  { return int(math.Floor(f)) }
+func encInt(id int) int64     { return int64(id) - 5000 }
+func decInt(v int64) int      { return int(v + 5000) }
+func encUint(id int) uint64   { return uint64(id) + 1<<63 }
+func decUint(v uint64) int    { return int(v - 1<<63) }
+func encString(id int) string { return "v" + strings.Repeat("x", id%3) + fmt.Sprint(id) }
 func decString(s string) int {
 	var id int
 	if _, err := fmt.Sscanf(strings.TrimLeft(s, "vx"), "%d", &id); err != nil {
@@ -275,8 +276,8 @@ func cursorImpl[T comparable, A any](name string, isBool bool, enc func(int) T, 
 			merge(A1, B1)
 			return read(A1), eqPts(read(B1), b)
 		},
-		exclude: func(a []pt, lo, hi int64, extra int) []pt { x := build(a, extra); excl(x, lo, hi); return read(x) },
-		include: func(a []pt, lo, hi int64, extra int) []pt { x := build(a, extra); incl(x, lo, hi); return read(x) },
+		exclude:   func(a []pt, lo, hi int64, extra int) []pt { x := build(a, extra); excl(x, lo, hi); return read(x) },
+		include:   func(a []pt, lo, hi int64, extra int) []pt { x := build(a, extra); incl(x, lo, hi); return read(x) },
 		findRange: func(a []pt, lo, hi int64) (int, int) { return fr(build(a, 0), lo, hi) },
 	}
 }
@@ -325,19 +326,27 @@ func arrayImpls() []arrImpl {
 			func(a *cursors.FloatArray) ([]int64, []float64) { return a.Timestamps, a.Values },
 			(*cursors.FloatArray).Merge, (*cursors.FloatArray).Exclude, (*cursors.FloatArray).Include, (*cursors.FloatArray).FindRange),
 		cursorImpl("cursors.IntegerArray", false, encInt, decInt,
-			func(t []int64, v []int64) *cursors.IntegerArray { return &cursors.IntegerArray{Timestamps: t, Values: v} },
+			func(t []int64, v []int64) *cursors.IntegerArray {
+				return &cursors.IntegerArray{Timestamps: t, Values: v}
+			},
 			func(a *cursors.IntegerArray) ([]int64, []int64) { return a.Timestamps, a.Values },
 			(*cursors.IntegerArray).Merge, (*cursors.IntegerArray).Exclude, (*cursors.IntegerArray).Include, (*cursors.IntegerArray).FindRange),
 		cursorImpl("cursors.UnsignedArray", false, encUint, decUint,
-			func(t []int64, v []uint64) *cursors.UnsignedArray { return &cursors.UnsignedArray{Timestamps: t, Values: v} },
+			func(t []int64, v []uint64) *cursors.UnsignedArray {
+				return &cursors.UnsignedArray{Timestamps: t, Values: v}
+			},
 			func(a *cursors.UnsignedArray) ([]int64, []uint64) { return a.Timestamps, a.Values },
 			(*cursors.UnsignedArray).Merge, (*cursors.UnsignedArray).Exclude, (*cursors.UnsignedArray).Include, (*cursors.UnsignedArray).FindRange),
 		cursorImpl("cursors.StringArray", false, encString, decString,
-			func(t []int64, v []string) *cursors.StringArray { return &cursors.StringArray{Timestamps: t, Values: v} },
+			func(t []int64, v []string) *cursors.StringArray {
+				return &cursors.StringArray{Timestamps: t, Values: v}
+			},
 			func(a *cursors.StringArray) ([]int64, []string) { return a.Timestamps, a.Values },
 			(*cursors.StringArray).Merge, (*cursors.StringArray).Exclude, (*cursors.StringArray).Include, (*cursors.StringArray).FindRange),
 		cursorImpl("cursors.BooleanArray", true, boolOf, b2i,
-			func(t []int64, v []bool) *cursors.BooleanArray { return &cursors.BooleanArray{Timestamps: t, Values: v} },
+			func(t []int64, v []bool) *cursors.BooleanArray {
+				return &cursors.BooleanArray{Timestamps: t, Values: v}
+			},
 			func(a *cursors.BooleanArray) ([]int64, []bool) { return a.Timestamps, a.Values },
 			(*cursors.BooleanArray).Merge, (*cursors.BooleanArray).Exclude, (*cursors.BooleanArray).Include, (*cursors.BooleanArray).FindRange),
 		valuesImpl[tsm1.Value, tsm1.Values]("tsm1.Values", false,
@@ -355,19 +364,27 @@ func arrayImpls() []arrImpl {
 			func(v tsm1.FloatValue) int64 { return v.UnixNano() }, func(v tsm1.FloatValue) int { return decFloat(v.RawValue()) },
 			tsm1.FloatValues.Merge, tsm1.FloatValues.Exclude, tsm1.FloatValues.Include, tsm1.FloatValues.FindRange, tsm1.FloatValues.Deduplicate),
 		valuesImpl[tsm1.IntegerValue, tsm1.IntegerValues]("tsm1.IntegerValues", false,
-			func(t int64, id int) tsm1.IntegerValue { return tsm1.NewIntegerValue(t, encInt(id)).(tsm1.IntegerValue) },
+			func(t int64, id int) tsm1.IntegerValue {
+				return tsm1.NewIntegerValue(t, encInt(id)).(tsm1.IntegerValue)
+			},
 			func(v tsm1.IntegerValue) int64 { return v.UnixNano() }, func(v tsm1.IntegerValue) int { return decInt(v.RawValue()) },
 			tsm1.IntegerValues.Merge, tsm1.IntegerValues.Exclude, tsm1.IntegerValues.Include, tsm1.IntegerValues.FindRange, tsm1.IntegerValues.Deduplicate),
 		valuesImpl[tsm1.UnsignedValue, tsm1.UnsignedValues]("tsm1.UnsignedValues", false,
-			func(t int64, id int) tsm1.UnsignedValue { return tsm1.NewUnsignedValue(t, encUint(id)).(tsm1.UnsignedValue) },
+			func(t int64, id int) tsm1.UnsignedValue {
+				return tsm1.NewUnsignedValue(t, encUint(id)).(tsm1.UnsignedValue)
+			},
 			func(v tsm1.UnsignedValue) int64 { return v.UnixNano() }, func(v tsm1.UnsignedValue) int { return decUint(v.RawValue()) },
 			tsm1.UnsignedValues.Merge, tsm1.UnsignedValues.Exclude, tsm1.UnsignedValues.Include, tsm1.UnsignedValues.FindRange, tsm1.UnsignedValues.Deduplicate),
 		valuesImpl[tsm1.StringValue, tsm1.StringValues]("tsm1.StringValues", false,
-			func(t int64, id int) tsm1.StringValue { return tsm1.NewStringValue(t, encString(id)).(tsm1.StringValue) },
+			func(t int64, id int) tsm1.StringValue {
+				return tsm1.NewStringValue(t, encString(id)).(tsm1.StringValue)
+			},
 			func(v tsm1.StringValue) int64 { return v.UnixNano() }, func(v tsm1.StringValue) int { return decString(v.RawValue()) },
 			tsm1.StringValues.Merge, tsm1.StringValues.Exclude, tsm1.StringValues.Include, tsm1.StringValues.FindRange, tsm1.StringValues.Deduplicate),
 		valuesImpl[tsm1.BooleanValue, tsm1.BooleanValues]("tsm1.BooleanValues", true,
-			func(t int64, id int) tsm1.BooleanValue { return tsm1.NewBooleanValue(t, boolOf(id)).(tsm1.BooleanValue) },
+			func(t int64, id int) tsm1.BooleanValue {
+				return tsm1.NewBooleanValue(t, boolOf(id)).(tsm1.BooleanValue)
+			},
 			func(v tsm1.BooleanValue) int64 { return v.UnixNano() }, func(v tsm1.BooleanValue) int { return b2i(v.RawValue()) },
 			tsm1.BooleanValues.Merge, tsm1.BooleanValues.Exclude, tsm1.BooleanValues.Include, tsm1.BooleanValues.FindRange, tsm1.BooleanValues.Deduplicate),
 	}
@@ -1194,6 +1211,9 @@ func runCompact(c *tcase, env *rt.Env) rt.Result {
 		}
 		for _, mode := range c.Modes {
 			for j, ppb := range c.Exp.PPBs {
+				if c.OnlyPPB > 0 && ppb != c.OnlyPPB {
+					continue
+				}
 				var outFiles []string
 				var cerr error
 				switch mode {
